@@ -19,9 +19,9 @@ impl<'a> Ctx<'a> {
         for (k, st) in stmts.iter().enumerate() {
             match st {
                 Stmt::Item(_) => {}
-                Stmt::Local(l) => lets.push(self.local(l, false)?),
+                Stmt::Local(l) => lets.extend(self.local(l, false)?),
                 Stmt::Expr(e, None) if k + 1 == stmts.len() => tail = Some(self.expr(e, expect)?),
-                Stmt::Macro(m) if is_assert(&m.mac) => {}
+                Stmt::Macro(m) if is_assert(&m.mac) || is_noop_macro(&m.mac) => {}
                 _ => return Err(format!("statement `{}` inside a block used as a value", quote::quote!(#st))),
             }
         }
@@ -32,7 +32,8 @@ impl<'a> Ctx<'a> {
         Ok((l, t))
     }
 
-    fn local(&mut self, l: &syn::Local, rename: bool) -> R<(String, L)> {
+    /// one `let`: the Lean bindings it becomes (several for an irrefutable struct pattern: one projection per bound field)
+    fn local(&mut self, l: &syn::Local, rename: bool) -> R<Vec<(String, L)>> {
         let (pat, ann) = match &l.pat {
             Pat::Type(pt) => (&*pt.pat, Some(self.rust_ty(&pt.ty)?)),
             p => (p, None),
@@ -48,17 +49,73 @@ impl<'a> Ctx<'a> {
         };
         match pat {
             Pat::Ident(i) => {
+                self.views.remove(&i.ident.to_string());
                 let n = self.declare(&i.ident.to_string(), vt, rename);
-                Ok((n, v))
+                Ok(vec![(n, v)])
             }
             Pat::Tuple(_) => {
                 let alts = self.pat(pat, &vt, rename)?;
                 if alts.len() != 1 {
                     return Err("refutable `let` pattern".into());
                 }
-                Ok((alts[0].clone(), v))
+                Ok(vec![(alts[0].clone(), v)])
             }
-            Pat::Wild(_) => Ok(("_".into(), v)),
+            Pat::Wild(_) => Ok(vec![("_".into(), v)]),
+            // `let LayoutInput { known_dimensions, run_mode, .. } = inputs;`  ⇒  `let known_dimensions := inputs.knownDimensions` …
+            Pat::Struct(ps) => {
+                let an = match &vt {
+                    Ty::Adt(n, _) => n.clone(),
+                    _ => return Err("struct pattern in `let` against a non-struct".into()),
+                };
+                if *path_last(&ps.path) != an {
+                    return Err(format!("struct pattern of {} against a value of type {an}", path_last(&ps.path)));
+                }
+                let mut out = vec![];
+                let base = match &v {
+                    L::A(s) if !s.contains(' ') => v.clone(),
+                    _ => {
+                        let tmp = self.fresh_name("tmp");
+                        out.push((tmp.clone(), v));
+                        L::A(tmp)
+                    }
+                };
+                let mut seen: Vec<String> = vec![];
+                for fp in &ps.fields {
+                    if !self.env.enabled(&fp.attrs)? {
+                        continue;
+                    }
+                    let fname = match &fp.member {
+                        syn::Member::Named(n) => n.to_string(),
+                        _ => return Err("positional struct pattern".into()),
+                    };
+                    // the projection is typed by the existing field-access rule
+                    let fe: syn::Expr = syn::parse_str(&format!("__base.{fname}")).map_err(|e| e.to_string())?;
+                    self.locals.insert("__base".into(), (base.render(0, false), vt.clone()));
+                    let r = self.expr(&fe, &Ty::Unknown);
+                    self.locals.remove("__base");
+                    let (proj, pty) = r?;
+                    match &*fp.pat {
+                        Pat::Ident(i) if i.subpat.is_none() && i.by_ref.is_none() => {
+                            self.views.remove(&i.ident.to_string());
+                            let n = self.declare(&i.ident.to_string(), pty, rename);
+                            out.push((n, proj));
+                        }
+                        Pat::Wild(_) => {}
+                        _ => return Err("nested pattern inside a struct pattern of a `let`".into()),
+                    }
+                    seen.push(fname);
+                }
+                if ps.rest.is_none() {
+                    if let Some(crate::lean::AdtKind::Struct(fs)) = self.w.adt(&an).map(|a| a.kind.clone()) {
+                        for f in &fs {
+                            if !seen.contains(&f.rust) {
+                                return Err(format!("struct pattern of {an} lacks field `{}`", f.rust));
+                            }
+                        }
+                    }
+                }
+                Ok(out)
+            }
             _ => Err("unsupported `let` pattern".into()),
         }
     }
@@ -147,7 +204,21 @@ impl<'a> Ctx<'a> {
             self.locals = saved;
             translated.push((alts, guard, body));
         }
-        // guards: `p if g => e` becomes `p => if g then e else (match s with <arms after>)`
+        // guards: `p if g => e` becomes `p => if g then e else (match s with <arms after>)`; the inner match repeats the
+        // scrutinees, so a scrutinee variable that a guarded arm's pattern rebinds is first bound to a fresh name
+        let mut prebind: Vec<(String, L)> = vec![];
+        let mut scruts = scruts;
+        {
+            let word = |hay: &str, w: &str| hay.split(|c: char| !(c.is_alphanumeric() || c == '_' || c == '\'')).any(|x| x == w);
+            let collide = translated.iter().any(|(alts, g, _)| g.is_some() && alts.iter().any(|a| a.iter().any(|p| scruts.iter().any(|s| matches!(s, L::A(n) if word(p, n))))));
+            if collide {
+                for sc in scruts.iter_mut() {
+                    let n = self.fresh_name("scrut");
+                    prebind.push((n.clone(), sc.clone()));
+                    *sc = L::A(n);
+                }
+            }
+        }
         let mut after: Vec<(Vec<String>, L)> = vec![];
         for (alts, guard, body) in translated.into_iter().rev() {
             let body = match guard {
@@ -167,7 +238,11 @@ impl<'a> Ctx<'a> {
         }
         after.reverse();
         arms.extend(after);
-        Ok((L::Match(scruts, arms), result_ty))
+        let mut out = L::Match(scruts, arms);
+        for (n, v) in prebind.into_iter().rev() {
+            out = L::Let(n, Box::new(v), Box::new(out));
+        }
+        Ok((out, result_ty))
     }
 
     /// the shape `match self.0.tag() { CompactLength::X_TAG => …, _ if self.0.is_calc() => …, _ => unreachable!() }`
@@ -241,6 +316,7 @@ impl<'a> Ctx<'a> {
         let key = self.mut_param.clone().unwrap_or("self".to_string());
         let self_l = || self.locals.get(&key).map(|x| L::A(x.0.clone())).ok_or("no self".to_string());
         match self.ret {
+            RetMode::Plain if self.prog.is_some() => Ok(L::app(&format!("{}.ret", self.prog.as_ref().unwrap().ns_lean), vec![v])),
             RetMode::Plain => Ok(v),
             RetMode::MutSelfUnit => self_l(),
             RetMode::MutSelfVal => Ok(L::Tuple(vec![self_l()?, v])),
@@ -248,6 +324,7 @@ impl<'a> Ctx<'a> {
     }
     fn ret_unit(&self) -> R<L> {
         match self.ret {
+            RetMode::Plain if self.ret_ty == Ty::Unit && self.prog.is_some() => Ok(L::app(&format!("{}.ret", self.prog.as_ref().unwrap().ns_lean), vec![L::a("()")])),
             RetMode::Plain if self.ret_ty == Ty::Unit => Ok(L::a("()")),
             RetMode::MutSelfUnit => self.ret(L::a("()")),
             _ => Err("control reaches the end of the function without a value".into()),
@@ -278,15 +355,47 @@ impl<'a> Ctx<'a> {
         match st {
             Stmt::Item(syn::Item::Use(_)) => self.seq(rest, value_tail, conts),
             Stmt::Item(_) => Err("nested item".into()),
-            Stmt::Macro(m) if is_assert(&m.mac) => self.seq(rest, value_tail, conts),
+            Stmt::Macro(m) if is_assert(&m.mac) || is_noop_macro(&m.mac) => self.seq(rest, value_tail, conts),
             Stmt::Macro(m) => Err(format!("unsupported statement macro `{}`", quote::quote!(#m))),
             Stmt::Local(l) => {
                 if !self.env.enabled(&l.attrs)? {
                     return self.seq(rest, value_tail, conts);
                 }
-                let (p, v) = self.local(l, nested)?;
-                let b = self.seq(rest, value_tail, conts)?;
-                Ok(L::Let(p, Box::new(v), Box::new(b)))
+                // `let x = tree.m(..);` / `let x = closure(..);` in interaction form
+                if self.prog.is_some() {
+                    if let Some(init) = &l.init {
+                        if let Some(it) = self.interaction(&init.expr)? {
+                            if init.diverge.is_some() {
+                                return Err("let-else".into());
+                            }
+                            let pat = match &l.pat {
+                                Pat::Type(pt) => &*pt.pat,
+                                p => p,
+                            };
+                            let binder = match pat {
+                                Pat::Ident(i) if i.subpat.is_none() => {
+                                    let rn = i.ident.to_string();
+                                    let n = self.declare(&rn, it.ret.clone(), nested);
+                                    match &it.view {
+                                        Some(v) => self.views.insert(rn, v.clone()),
+                                        None => self.views.remove(&rn),
+                                    };
+                                    n
+                                }
+                                Pat::Wild(_) => "_".to_string(),
+                                _ => return Err("pattern binding the answer of an interaction".into()),
+                            };
+                            let b = self.seq(rest, value_tail, conts)?;
+                            return Ok(self.emit_interaction(it, &binder, b));
+                        }
+                    }
+                }
+                let lets = self.local(l, nested)?;
+                let mut b = self.seq(rest, value_tail, conts)?;
+                for (p, v) in lets.into_iter().rev() {
+                    b = L::Let(p, Box::new(v), Box::new(b));
+                }
+                Ok(b)
             }
             Stmt::Expr(e, semi) => {
                 if !self.env.enabled(crate::expr::expr_attrs_pub(e))? {
@@ -317,7 +426,7 @@ impl<'a> Ctx<'a> {
                 self.locals = saved;
                 r
             }
-            Expr::If(i) if i.else_branch.is_some() => {
+            Expr::If(i) if i.else_branch.is_some() && !matches!(&*i.cond, Expr::Let(_)) => {
                 let (c, ct) = self.expr(&i.cond, &Ty::Bool)?;
                 if ct != Ty::Bool {
                     return Err("`if` condition is not a bool".into());
@@ -332,6 +441,16 @@ impl<'a> Ctx<'a> {
             Expr::Match(m) => Ok(self.match_expr(m, &self.ret_ty.clone(), Some((&[], true)))?.0),
             Expr::Return(r) => self.return_(r),
             Expr::If(_) | Expr::Assign(_) | Expr::ForLoop(_) => self.stmt_expr(e, &[]),
+            // a tail call of an interaction: its answer is the function's result
+            _ if self.prog.is_some() && self.interaction_shape(e) => {
+                let it = self.interaction(e)?.ok_or("internal: interaction shape")?;
+                if !self.ret_ty.compatible(&it.ret) {
+                    return Err(format!("returned value has type {:?}, declared {:?}", it.ret, self.ret_ty));
+                }
+                let n = self.fresh_name("r");
+                let ret = self.ret(L::A(n.clone()))?;
+                Ok(self.emit_interaction(it, &n, ret))
+            }
             _ => {
                 let rt = self.ret_ty.clone();
                 let (v, vt) = self.expr(e, &rt)?;
@@ -369,6 +488,33 @@ impl<'a> Ctx<'a> {
                 let b = self.cont(conts)?;
                 Ok(L::Let(name, Box::new(v), Box::new(b)))
             }
+            // `x.f += e;`  ⇒  `x.f = x.f + e;`
+            Expr::Binary(b) if compound_op(&b.op).is_some() => {
+                let rhs = Expr::Binary(syn::ExprBinary { attrs: vec![], left: b.left.clone(), op: compound_op(&b.op).unwrap(), right: b.right.clone() });
+                let (name, v) = self.assign(&b.left, &rhs)?;
+                let body = self.cont(conts)?;
+                Ok(L::Let(name, Box::new(v), Box::new(body)))
+            }
+            // `if let PAT = e { … } [else { … }]`  ⇒  `match e with | PAT => …; rest | _ => [else …;] rest`
+            Expr::If(i) if matches!(&*i.cond, Expr::Let(_)) => {
+                let l = match &*i.cond {
+                    Expr::Let(l) => l,
+                    _ => unreachable!(),
+                };
+                let (sc, st) = self.expr(&l.expr, &Ty::Unknown)?;
+                let saved = self.locals.clone();
+                let alts = self.pat(&l.pat, &st, true)?;
+                let a = self.seq(&i.then_branch.stmts, false, conts)?;
+                self.locals = saved.clone();
+                let b = match &i.else_branch {
+                    Some((_, eb)) => self.stmt_expr(eb, conts)?,
+                    None => self.cont(conts)?,
+                };
+                self.locals = saved;
+                let mut arms: Vec<(Vec<String>, L)> = alts.into_iter().map(|p| (vec![p], a.clone())).collect();
+                arms.push((vec!["_".into()], b));
+                Ok(L::Match(vec![sc], arms))
+            }
             Expr::If(i) => {
                 let (c, ct) = self.expr(&i.cond, &Ty::Bool)?;
                 if ct != Ty::Bool {
@@ -386,6 +532,16 @@ impl<'a> Ctx<'a> {
             }
             Expr::Match(m) => Ok(self.match_expr(m, &Ty::Unit, Some((conts, false)))?.0),
             Expr::ForLoop(f) => self.search_loop(f, conts),
+            // `tree.m(..);` / `closure(..);` in interaction form: the answer is discarded
+            _ if self.prog.is_some() && self.interaction_shape(e) => {
+                let it = self.interaction(e)?.ok_or("internal: interaction shape")?;
+                let b = self.cont(conts)?;
+                Ok(self.emit_interaction(it, "_", b))
+            }
+            // `drop(x);` of a local: no effect on the values computed
+            Expr::Call(c) if matches!(&*c.func, Expr::Path(p) if p.path.is_ident("drop")) && c.args.len() == 1 && matches!(&c.args[0], Expr::Path(p) if p.path.get_ident().map(|i| self.locals.contains_key(&i.to_string())).unwrap_or(false)) => {
+                self.cont(conts)
+            }
             // `f(&mut x, args…);` with `f` a translated function that updates its first argument:  `let x := f x args…`
             Expr::Call(c) => {
                 let name = match &*c.func {
@@ -518,7 +674,7 @@ impl<'a> Ctx<'a> {
         let mut let_ls = vec![];
         for st in lets {
             match st {
-                Stmt::Local(l) => let_ls.push(self.local(l, true)?),
+                Stmt::Local(l) => let_ls.extend(self.local(l, true)?),
                 _ => return Err("`for` body contains a statement other than `let` before the `if`".into()),
             }
         }
@@ -538,6 +694,233 @@ impl<'a> Ctx<'a> {
         let miss = self.cont(conts)?;
         self.locals = saved;
         Ok(L::Match(vec![L::app("List.find?", vec![pred, it])], vec![(vec![format!("some {x}")], hit), (vec!["none".into()], miss)]))
+    }
+}
+
+/// the logging macros of src/util/debug.rs: every statement they expand to is under `#[cfg(feature = "debug")]` /
+/// `#[cfg(any(feature = "debug", feature = "profile"))]` (checked by `check_debug_macros`), neither of which is a default feature
+pub const NOOP_MACROS: &[&str] = &["debug_log", "debug_log_node", "debug_push_node", "debug_pop_node"];
+
+fn is_noop_macro(m: &syn::Macro) -> bool {
+    NOOP_MACROS.iter().any(|n| m.path.is_ident(n))
+}
+
+/// `src/util/debug.rs`: the macros of `NOOP_MACROS` only ever expand to cfg-gated logger calls and to each other
+pub fn check_debug_macros(repo: &str) -> Result<(), String> {
+    let file = crate::util::parse_file(&format!("{repo}/src/util/debug.rs"))?;
+    let mut seen = vec![];
+    for it in &file.items {
+        if let syn::Item::Macro(m) = it {
+            let name = match &m.ident {
+                Some(i) => i.to_string(),
+                None => continue,
+            };
+            if !NOOP_MACROS.contains(&name.as_str()) {
+                continue;
+            }
+            seen.push(name.clone());
+            let text = m.mac.tokens.to_string().replace(' ', "").replace('\n', "");
+            for chunk in text.split(';') {
+                let effect = chunk.contains("NODE_LOGGER") || chunk.contains("println!") || chunk.contains("print!");
+                let gated = chunk.contains("#[cfg(feature=\"debug\")]") || chunk.contains("#[cfg(any(feature=\"debug\",feature=\"profile\"))]");
+                if effect && !gated {
+                    return Err(format!("macro `{name}` of src/util/debug.rs has a statement that is not gated by the `debug` / `profile` features: `{chunk}`"));
+                }
+                // any other macro it calls must be one of the four
+                let mut rest = chunk;
+                while let Some(k) = rest.find("!(") {
+                    let head: String = rest[..k].chars().rev().take_while(|c| c.is_alphanumeric() || *c == '_').collect::<String>().chars().rev().collect();
+                    if !head.is_empty() && !NOOP_MACROS.contains(&head.as_str()) && head != "println" && head != "print" {
+                        return Err(format!("macro `{name}` of src/util/debug.rs calls `{head}!`"));
+                    }
+                    rest = &rest[k + 2..];
+                }
+            }
+        }
+    }
+    for n in NOOP_MACROS {
+        if !seen.iter().any(|s| s == n) {
+            return Err(format!("macro `{n}` not found in src/util/debug.rs"));
+        }
+    }
+    Ok(())
+}
+
+fn path_last(p: &syn::Path) -> String {
+    p.segments.last().map(|s| s.ident.to_string()).unwrap_or_default()
+}
+
+fn compound_op(op: &syn::BinOp) -> Option<syn::BinOp> {
+    use syn::BinOp::*;
+    match op {
+        AddAssign(_) => Some(Add(Default::default())),
+        SubAssign(_) => Some(Sub(Default::default())),
+        MulAssign(_) => Some(Mul(Default::default())),
+        DivAssign(_) => Some(Div(Default::default())),
+        _ => None,
+    }
+}
+
+fn is_unreachable(e: &Expr) -> bool {
+    matches!(e, Expr::Macro(m) if m.mac.path.is_ident("unreachable") || m.mac.path.segments.last().map(|s| s.ident == "unreachable").unwrap_or(false))
+}
+
+/// one interaction of a function translated in interaction form
+pub(crate) struct Interaction {
+    /// arguments that can panic (`match … { …, X => unreachable!() }`), evaluated first as `Option`s: (variable, option-valued term)
+    partial: Vec<(String, L)>,
+    /// `true`: a constructor of the program type; `false`: a sub-program (`bind`)
+    ask: bool,
+    term: L,
+    pub ret: Ty,
+    pub view: Option<String>,
+}
+
+impl<'a> Ctx<'a> {
+    /// syntactic test: `tree.m(..)`, or a call of a closure parameter that is an interaction
+    pub(crate) fn interaction_shape(&self, e: &Expr) -> bool {
+        match e {
+            Expr::Paren(p) => self.interaction_shape(&p.expr),
+            Expr::MethodCall(m) => self.is_tree_expr(&m.receiver),
+            Expr::Call(c) => matches!(&*c.func, Expr::Path(p) if p.path.get_ident().map(|i| self.is_interaction_name(&i.to_string())).unwrap_or(false)),
+            _ => false,
+        }
+    }
+
+    /// an argument of an interaction; a `match` with `unreachable!()` arms is evaluated first, as an `Option`
+    fn interaction_arg(&mut self, a: &Expr, pt: &Ty, partial: &mut Vec<(String, L)>, what: &str) -> R<L> {
+        let inner = match a {
+            Expr::Paren(p) => &*p.expr,
+            Expr::Reference(r) => &*r.expr,
+            a => a,
+        };
+        if let Expr::Match(m) = inner {
+            if m.arms.iter().any(|arm| is_unreachable(&arm.body)) {
+                let (sc, st) = self.expr(&m.expr, &Ty::Unknown)?;
+                let mut arms = vec![];
+                let mut ty = pt.clone();
+                for arm in &m.arms {
+                    if !self.env.enabled(&arm.attrs)? {
+                        continue;
+                    }
+                    if arm.guard.is_some() {
+                        return Err("guard in a match with `unreachable!()` arms".into());
+                    }
+                    let saved = self.locals.clone();
+                    let alts = self.pat(&arm.pat, &st, true)?;
+                    let body = if is_unreachable(&arm.body) {
+                        L::a("none")
+                    } else {
+                        let (b, bt) = self.expr(&arm.body, &ty)?;
+                        if !ty.compatible(&bt) {
+                            return Err(format!("argument of type {:?} where {what} expects {:?}", bt, ty));
+                        }
+                        ty = ty.join(&bt);
+                        L::app("some", vec![b])
+                    };
+                    self.locals = saved;
+                    for p in alts {
+                        arms.push((vec![p], body.clone()));
+                    }
+                }
+                let n = self.fresh_name("arg");
+                partial.push((n.clone(), L::Match(vec![sc], arms)));
+                return Ok(L::A(n));
+            }
+        }
+        let (l, t) = self.expr(a, pt)?;
+        if !pt.compatible(&t) {
+            return Err(format!("argument of type {:?} where {what} expects {:?}", t, pt));
+        }
+        Ok(l)
+    }
+
+    /// `tree.m(args)` for a trait method of the tree (a query) or a translated provided method (a sub-program);
+    /// `closure(args)` for an opaque closure parameter (a query) or a closure that takes the tree (a sub-program)
+    pub(crate) fn interaction(&mut self, e: &Expr) -> R<Option<Interaction>> {
+        let pp = match &self.prog {
+            Some(p) => p.clone(),
+            None => return Ok(None),
+        };
+        match e {
+            Expr::Paren(p) => self.interaction(&p.expr),
+            Expr::MethodCall(m) if self.is_tree_expr(&m.receiver) => {
+                let name = m.method.to_string();
+                let args: Vec<&Expr> = m.args.iter().collect();
+                if let Some(eff) = pp.tree_methods.get(&name) {
+                    if eff.params.len() != args.len() {
+                        return Err(format!("arity mismatch calling the tree's `{name}`"));
+                    }
+                    let mut partial = vec![];
+                    let mut ls = vec![];
+                    for (a, pt) in args.iter().zip(&eff.params) {
+                        ls.push(self.interaction_arg(a, pt, &mut partial, &format!("the tree's `{name}`"))?);
+                    }
+                    return Ok(Some(Interaction { partial, ask: true, term: L::App(eff.ctor.clone(), ls), ret: eff.ret.clone(), view: eff.ret_view.clone() }));
+                }
+                if let Some(sig) = self.w.fns.get(&(pp.tree_head.clone(), name.clone())).and_then(|v| v.iter().find(|s| s.prog)).cloned() {
+                    if sig.params.len() != args.len() {
+                        return Err(format!("arity mismatch calling the tree's `{name}`"));
+                    }
+                    let mut partial = vec![];
+                    let mut ls = vec![];
+                    for (a, (_, pt)) in args.iter().zip(&sig.params) {
+                        ls.push(self.interaction_arg(a, pt, &mut partial, &format!("the tree's `{name}`"))?);
+                    }
+                    return Ok(Some(Interaction { partial, ask: false, term: L::App(sig.lean.clone(), ls), ret: sig.ret.clone(), view: None }));
+                }
+                Err(format!("`{name}` is not a translated method of the tree"))
+            }
+            Expr::Call(c) => {
+                let name = match &*c.func {
+                    Expr::Path(p) if p.path.get_ident().is_some() => p.path.get_ident().unwrap().to_string(),
+                    _ => return Ok(None),
+                };
+                let args: Vec<&Expr> = c.args.iter().collect();
+                if let Some(eff) = pp.closures.get(&name) {
+                    if eff.params.len() != args.len() {
+                        return Err(format!("arity mismatch calling the closure `{name}`"));
+                    }
+                    let mut partial = vec![];
+                    let mut ls = vec![];
+                    for (a, pt) in args.iter().zip(&eff.params) {
+                        ls.push(self.interaction_arg(a, pt, &mut partial, &format!("the closure `{name}`"))?);
+                    }
+                    return Ok(Some(Interaction { partial, ask: true, term: L::App(eff.ctor.clone(), ls), ret: eff.ret.clone(), view: None }));
+                }
+                if let Some((lean, ptys, ret)) = self.sub_programs.get(&name).cloned() {
+                    if args.len() != ptys.len() + 1 || !self.is_tree_expr(args[0]) {
+                        return Err(format!("the closure `{name}` must be called with the tree as its first argument"));
+                    }
+                    let mut partial = vec![];
+                    let mut ls = vec![];
+                    for (a, pt) in args[1..].iter().zip(&ptys) {
+                        ls.push(self.interaction_arg(a, pt, &mut partial, &format!("the closure `{name}`"))?);
+                    }
+                    return Ok(Some(Interaction { partial, ask: false, term: L::App(lean, ls), ret, view: None }));
+                }
+                Ok(None)
+            }
+            _ => Ok(None),
+        }
+    }
+
+    /// `<interaction> args (fun x => body)` / `bind p (fun x => body)`, after the arguments that can panic
+    pub(crate) fn emit_interaction(&self, it: Interaction, binder: &str, body: L) -> L {
+        let ns = self.prog.as_ref().map(|p| p.ns_lean.clone()).unwrap_or_default();
+        let b = if it.ret.has_unknown() { binder.to_string() } else { format!("({binder} : {})", crate::emit::strip_parens(&self.w.lean_ty(&it.ret))) };
+        let k = L::Fun(vec![b], Box::new(body));
+        let mut out = match (it.ask, it.term) {
+            (true, L::App(ctor, mut args)) => {
+                args.push(k);
+                L::App(ctor, args)
+            }
+            (_, term) => L::App(format!("{ns}.bind"), vec![term, k]),
+        };
+        for (n, opt) in it.partial.into_iter().rev() {
+            out = L::Match(vec![opt], vec![(vec!["none".into()], L::A(format!("{ns}.unreachable"))), (vec![format!("some {n}")], out)]);
+        }
+        out
     }
 }
 
